@@ -2,12 +2,14 @@
    /repo/syntax/parser.go (scanCharSet) + tree.go (nodeWithCaseConversion, reduceSet).
    No proofs in this file.  Line numbers refer to /repo/syntax/charclass.go unless said otherwise.
 
-   The model follows /repo WITH the four C16 fixes (commits 027bb80, d71b246, d434c54, 376a621):
+   The model follows /repo WITH the five C16 fixes (commits 027bb80, d71b246, d434c54, 376a621, dd13520):
      - charInCategories: a negated category containing the rune no longer ends the loop;
      - addCaseEquivalences descends into the subtracted set;
      - scanCharSet keeps the set marked negated while members are added (canonicalize's negated
        normal forms are applied once, when the set is complete);
-     - addNamedASCII: [[:digit:]] = [0-9], [[:space:]] = [\t-\r ].
+     - addNamedASCII: [[:digit:]] = [0-9], [[:space:]] = [\t-\r ];
+     - scanCharSet folds case (addLowercase, addCaseEquivalences) BEFORE the real negate flag is
+       restored and the finished set is canonicalized (scan_char_set needs fuel and returns res).
 
    Runes are Z (Go rune = int32; negative values and values above 0x10FFFF can reach CharIn through
    []rune inputs and are kept).  Category names are Z ids:
@@ -676,20 +678,41 @@ Section CharClass.
     | IPosix ng k => add_named_ascii c k ng
     end.
 
-  (* scanCharSet: members are added to a set marked negated, the subtraction is attached, then the
-     real flag is restored, the set canonicalized and (IgnoreCase) addLowercase applied *)
-  Fixpoint scan_char_set (o : opts) (s : csyn) : cls :=
+  (* scanCharSet (parser.go:1692-1927): members are added to a set marked negated, the subtraction
+     (itself a finished class: the recursive call) is attached, then - IgnoreCase only, fix dd13520 -
+     addLowercase and addCaseEquivalences fold case while the members are still listed as written
+     (addCaseEquivalences descends into the finished subtracted class once more), and only then the
+     real flag is restored and the set canonicalized (which may rewrite it into a negated normal form). *)
+  Fixpoint scan_char_set (fuel : nat) (o : opts) (s : csyn) : res cls :=
     match s with
     | CSyn ng items sb =>
       let c := fold_left (elab_item o) items (Cls [] [] None true false None) in
-      let c := match sb with Some s' => add_subtraction c (scan_char_set o s') | None => c end in
+      do c <- match sb with
+              | Some s' => do sc <- scan_char_set fuel o s' ; Ok (add_subtraction c sc)
+              | None => Ok c
+              end ;
+      do c <- (if o_ci o then add_case_equivalences fuel (add_lowercase c) else Ok c) ;
+      Ok (canonicalize (set_neg c ng))
+    end.
+
+  (* the order before dd13520: restore the flag, canonicalize, THEN addLowercase (kept for the
+     refutation C16_char_in_denote_old_order_refuted; not used by any driver) *)
+  Fixpoint scan_char_set_old (o : opts) (s : csyn) : cls :=
+    match s with
+    | CSyn ng items sb =>
+      let c := fold_left (elab_item o) items (Cls [] [] None true false None) in
+      let c := match sb with Some s' => add_subtraction c (scan_char_set_old o s') | None => c end in
       let c := canonicalize (set_neg c ng) in
       if o_ci o then add_lowercase c else c
     end.
+  Definition elab_old (fuel : nat) (s : csyn) (o : opts) : res cls :=
+    let c := scan_char_set_old o s in
+    if o_ci o then add_case_equivalences fuel c else Ok c.
 
-  (* newRegexNodeSet -> nodeWithCaseConversion (tree.go:180-229) on a Set node *)
+  (* newRegexNodeSet -> nodeWithCaseConversion (tree.go:180-229) on a Set node: addCaseEquivalences
+     once more on (a copy of) the finished class *)
   Definition elab (fuel : nat) (s : csyn) (o : opts) : res cls :=
-    let c := scan_char_set o s in
+    do c <- scan_char_set fuel o s ;
     if o_ci o then add_case_equivalences fuel c else Ok c.
 
 End CharClass.
